@@ -50,6 +50,8 @@ KINDS = {
     "fnptr": ("fn(u64) -> u64", 1),
     "selfref": ("&Self", 1),
     "mutw": ("&mut u64", 1),
+    "refb": ("&'b u64", 1),
+    "anyref": ("&A", 1),
     "paren": ("(u64)", 1),
     "qual": ("::core::primitive::u64", 1),
     "qself": ("<u64 as ::core::ops::Add>::Output", 1),
@@ -60,7 +62,7 @@ KINDS = {
     "intosole": ("impl Into<Tracked>", 1),
     "intonever": ("impl Into<Tracked>", 1),
 }
-SPECIAL_KINDS = ("intosole", "intonever", "mutw")
+SPECIAL_KINDS = ("intosole", "intonever", "mutw", "refb", "anyref")
 
 
 class Param:
@@ -72,6 +74,10 @@ class Param:
         n = self.binding(i, fn_name)
         if self.pat == "wild":
             return f"_: {ty}"
+        if self.pat == "cfgattr":
+            return f"#[cfg(all())] {n}: {ty}"
+        if self.pat == "allowattr":
+            return f"#[allow(unused_variables)] {n}: {ty}"
         if self.pat == "mut":
             return f"mut {n}: {ty}"
         if self.pat == "destr":
@@ -121,8 +127,10 @@ class Param:
         k = self.kind
         if k in ("u64", "paren", "qual", "qself"):
             return [n]
-        if k == "refstatic":
+        if k in ("refstatic", "refb"):
             return [f"*{n}"]
+        if k == "anyref":
+            return [f"{{ let _ = {n}; sim::name_fp(std::any::type_name::<A>()) }}"]
         if k == "mutw":
             return [f"{{ let __old = *{n}; *{n} = __old ^ 0x5a5a; __old }}"]
         if k == "dynauto":
@@ -196,6 +204,10 @@ class Param:
             return ("", f"v[{k}]", [f"v[{k}]"], 1)
         if kd == "refstatic":
             return ("", f"sim::leak_static(v[{k}])", [f"v[{k}]"], 1)
+        if kd == "refb":
+            return ("", f"&v[{k}]", [f"v[{k}]"], 1)
+        if kd == "anyref":
+            return ("", f"&v[{k}]", ['sim::name_fp("u64")'], 1)
         if kd == "mutw":
             return (f"let mut mw{k} = v[{k}];", f"&mut mw{k}", [f"v[{k}]"], 1)
         if kd == "dynauto":
@@ -444,7 +456,7 @@ SMALL_RETS = {"boolr": ("1", "__r == 1"), "u8r": ("0xff", "__r as u8"), "u32r": 
 
 
 def lifetimes(fn):
-    need_a = fn.ret in ("refarg", "refdeps") or any(p.kind == "refa" for p in fn.params)
+    need_a = fn.ret in ("refarg", "refdeps") or any(p.kind in ("refa", "refb") for p in fn.params)
     return need_a
 
 
@@ -479,8 +491,12 @@ def deps_sig(fn):
 def fn_text(fn, indent="", in_impl=False):
     gens, first, where, recv, depsb = deps_sig(fn)
     lt = ["'a"] if lifetimes(fn) else []
+    if any(p.kind == "refb" for p in fn.params):
+        lt = ["'a", "'b: 'a"]
     if any(p.kind == "gen" for p in fn.params):
         gens = gens + ["T: Fp"]
+    if any(p.kind == "anyref" for p in fn.params):
+        gens = gens + ["A"]
     gens = gens + fn.extra_generics
     where = where + fn.extra_where
     generics = lt + gens
@@ -698,6 +714,16 @@ single(Fn("r_u32", ("impl", ["F0"]), ["u64"], ret="u32r", calls=["f0"]))
 single(Fn("r_i32", ("any", []), [], ret="i32r"))
 single(Fn("r_usize", ("impl", ["F0"]), [], ret="usizer"))
 single(Fn("ar_u8", ("impl", ["Af0"]), ["u64"], ret="u8r", is_async=True))
+# a second lifetime with an outlives bound; an unbounded generic behind a reference (no_deps: it is
+# the FIRST parameter, where a dependency would be); attributes on parameters
+single(Fn("lt_b", ("impl", ["F0"]), ["refa", "refb"], ret="refarg", props=("C01", "C14")))
+single(Fn("alt_b", ("impl", ["Af0"]), ["refa", "refb", "u64"], ret="refarg", is_async=True, calls=["af0"], props=("C01", "C14")))
+module("ltbmod", "Ltbmod", [Fn("altbm", ("impl", ["Af0"]), ["refa", "refb"], ret="refarg", is_async=True), Fn("altbm_plain", ("impl", ["Af0"]), ["u64", "u64"], is_async=True)], props=("C01", "C14"))
+single(Fn("nd_anyref", ("nodeps", []), ["anyref", "u64"], opts="no_deps"))
+single(Fn("and_anyref", ("nodeps", []), ["anyref", "u64"], opts="no_deps, ?Send", is_async=True, send=False))
+single(Fn("anyref_deps", ("impl", ["F0"]), ["anyref", "u64"]))
+single(Fn("pattr_fn", ("impl", ["F0"]), ["cfgattr:u64", "u64"]))
+single(Fn("pattr_fn2", ("impl", ["F0"]), ["u64", "allowattr:u64", "u64"]))
 # explicit lifetime on the dependency reference
 single(Fn("lt_deps", ("impl", ["F0"]), ["refa", "u64"], ret="refarg", deps_lt=True, calls=["f0"], props=("C01", "C14")))
 single(Fn("alt_deps", ("gen", ["Af0"]), ["u64", "refa"], ret="refarg", deps_lt=True, is_async=True, props=("C01", "C14")))
@@ -1348,10 +1374,14 @@ trait_section("ARef", "ref", [
     Fn("ar2", SELF, ["u64", "u64"], is_async=True),
     Fn("ar_unit", SELF, ["u64", "u64"], ret="unit", is_async=True),
     Fn("ar_sync", SELF, ["u64", "u64"]),
+    Fn("ar0", SELF, [], is_async=True),
+    Fn("ar_refs", SELF, ["ref", "ref"], is_async=True),
 ], async_trait=True, supers=": Sync + 'static")
 trait_section("ABorrow", "borrow", [
     Fn("ab1", SELF, ["u64", "u64"], is_async=True),
     Fn("ab_unit", SELF, ["u64"], ret="unit", is_async=True),
+    Fn("ab0", SELF, [], is_async=True),
+    Fn("ab_refs", SELF, ["ref", "ref"], is_async=True),
 ], async_trait=True, supers=": Sync + 'static")
 
 
@@ -1416,6 +1446,9 @@ trait_section("ABorrowInd", "borrow", [
 trait_section("ByRefFl", "ref", [Fn("rfl1", SELF, ["u64", "u64"]), Fn("rfl2", SELF, ["u64", "u64"])], supers=": 'static", flavours=("Sync", "Send", "Send + Sync"))
 trait_section("ByBorrowFl", "borrow", [Fn("bfl1", SELF, ["u64", "u64"])], supers=": 'static", flavours=("Sync", "Send + Sync"))
 trait_section("ARefFl", "ref", [Fn("arfl1", SELF, ["u64", "u64"], is_async=True)], async_trait=True, supers=": Sync + 'static", flavours=("Sync", "Send + Sync"))
+trait_section("PlainPattr", "self", [Fn("ppattr1", SELF, ["cfgattr:u64", "u64"]), Fn("ppattr2", SELF, ["u64", "cfgattr:u64", "u64"]), Fn("appattr", SELF, ["allowattr:u64", "u64"], is_async=True)])
+trait_section("ByRefPattr", "ref", [Fn("rpattr1", SELF, ["cfgattr:u64", "u64"])], supers=": 'static")
+trait_section("ByBorrowPattr", "borrow", [Fn("bpattr1", SELF, ["cfgattr:u64", "u64", "u64"])], supers=": 'static")
 trait_section("PlainMutw", "self", [Fn("pmutw", SELF, ["mutw", "u64"]), Fn("apmutw", SELF, ["u64", "mutw"], is_async=True)])
 trait_section("ByRefMutw", "ref", [Fn("rmutw", SELF, ["mutw", "u64"])], supers=": 'static")
 trait_section("PlainUnd", "self", [Fn("pund1", SELF, ["u64", "name=limit:u64", "name=_limit:u64"]), Fn("pund2", SELF, ["name=_x:u64", "name=__x:u64", "name=x:u64"]),
@@ -2458,6 +2491,29 @@ def layered_same_name():
              f"    pub fn get_user(deps: &impl super::lay_repo::GetUser, p0: u64, p1: u64) -> u64 {{\n        let __f = sim::enter({svc.fn_id}, sim::addr(deps), &[p0, p1]);\n        sim::user_alloc(&__f);\n        sim::sync_point(&__f);\n"
              f"        let __a0 = [sim::sub(&__f, 0), sim::sub(&__f, 1)];\n        let __t0 = sim::call_start({repo.method_id}, sim::addr(deps), &__a0);\n"
              f"        let __c0 = super::lay_repo::GetUser::get_user(deps, __a0[0], __a0[1]);\n        sim::call_end(__t0, __c0);\n        sim::exit(__f, &[__c0])\n    }}\n}}\n")
+    # async pair, method-call syntax: the service fn awaits a SAME-NAMED method of another trait
+    arepo = Fn("alayr_get_user", ("impl", ["Af0"]), ["u64", "u64"], is_async=True)
+    asvc = Fn("alays_get_user", ("impl", ["Af0"]), ["u64", "u64"], is_async=True)
+    for fn in (arepo, asvc):
+        register(fn)
+        fn.cid = cid
+        fn.section = "fn"
+        fn.props = ["C01", "C14"]
+        fn.lookups = 0
+    asvc.calls = ["alayr_get_user"]
+    text += (f"{cfg}pub mod alay_repo {{\n    use super::*;\n    #[entrait(pub AGetUser)]\n"
+             f"    pub async fn aget_user(deps: &impl Af0, p0: u64, p1: u64) -> u64 {{\n        let __f = sim::enter({arepo.fn_id}, sim::addr(deps), &[p0, p1]);\n        sim::user_alloc(&__f);\n        sim::pause(&__f).await;\n"
+             f"        sim::exit(__f, &[])\n    }}\n}}\n")
+    text += (f"{cfg}pub mod alay_service {{\n    use super::*;\n    #[entrait(pub AGetUser)]\n"
+             f"    pub async fn aget_user(deps: &impl super::alay_repo::AGetUser, p0: u64, p1: u64) -> u64 {{\n        let __f = sim::enter({asvc.fn_id}, sim::addr(deps), &[p0, p1]);\n        sim::user_alloc(&__f);\n        sim::pause(&__f).await;\n"
+             f"        let __a0 = [sim::sub(&__f, 0), sim::sub(&__f, 1)];\n        let __t0 = sim::call_start({arepo.method_id}, sim::addr(deps), &__a0);\n"
+             f"        let __c0 = deps.aget_user(__a0[0], __a0[1]).await;\n        sim::call_end(__t0, __c0);\n        sim::pause(&__f).await;\n        sim::exit(__f, &[__c0])\n    }}\n}}\n")
+    arepo.trait_call = "alay_repo::AGetUser::aget_user(app, {args})"
+    arepo.direct_call = "alay_repo::aget_user(app, {args})"
+    arepo.recv_expr = "sim::addr(app)"
+    asvc.trait_call = "alay_service::AGetUser::aget_user(app, {args})"
+    asvc.direct_call = "alay_service::aget_user(app, {args})"
+    asvc.recv_expr = "sim::addr(app)"
     repo.trait_call = "lay_repo::GetUser::get_user(app, {args})"
     repo.direct_call = "lay_repo::get_user(app, {args})"
     repo.recv_expr = "sim::addr(app)"
